@@ -23,6 +23,9 @@ def macros(prog):
                 for n in walk(i):
                     if n.get('k') == 'Lit' and n.get('m'):
                         m.setdefault(n['m'], n['v'])
+        for e in prog.enums.values():
+            for en in e['enumerators']:
+                m.setdefault(en['name'], en['v'])
         prog._macros = m
     return prog._macros
 
@@ -193,3 +196,20 @@ def parse_call(atom):
     if not m:
         return None
     return m.group(1), split_args(m.group(2))
+
+
+def may_succeed(oc):
+    """Can this Outcomes path return CKR_OK / true?  False only when the returned value is provably an error."""
+    ret = oc['ret']
+    if ret is None:
+        return True
+    if ret.startswith('CKR_'):
+        return ret == 'CKR_OK'
+    if oc.get('retv') is not None:
+        return oc['retv'] == 0
+    if ('EQ(%s,CKR_OK)' % ret, False) in oc['facts']:
+        return False
+    for a, t in oc['facts']:
+        if t and a.startswith('EQ(%s,CKR_' % ret) and not a.endswith(',CKR_OK)'):
+            return False
+    return True
